@@ -11,8 +11,11 @@
 (***************************************************************************)
 EXTENDS EapLife, KeyLife, Pools
 CONSTANTS MaxOps,
-          FromWire     \* TRUE: the object is not built but decoded from a packet whose attributes are NOT in ascending order
+          FromWire,    \* TRUE: the object is not built but decoded from a packet whose attributes are NOT in ascending order
+          PropId       \* the property the run is made for ("C14": the code computations are attributed to C15)
 VARIABLES attrs, ops, done
+PSet == PropId
+PMac == IF PropId = "C14" THEN "C15" ELSE PropId
 
 V(t, n, s) == [t |-> t, v |-> D(n, s)]
 \* calls: set of an accepted value, set of a refused value, marshal, calc
@@ -42,18 +45,18 @@ Steps(s, as) ==
   ELSE LET c == Head(s) IN
        CASE c.op = "set" ->
               LET ok == Accepted(c.a) as2 == IF ok THEN Put(as, c.a) ELSE as IN
-              << Step("aka_setattr", "C14", FALSE, [t |-> c.a.t, v |-> c.a.v], [panic |-> FALSE, err |-> ~ok, attrs |-> as2]) >> \o Steps(Tail(s), as2)
+              << Step("aka_setattr", PSet, FALSE, [t |-> c.a.t, v |-> c.a.v], [panic |-> FALSE, err |-> ~ok, attrs |-> as2]) >> \o Steps(Tail(s), as2)
          [] c.op = "marshal" ->
-              << Step("aka_marshal", "C14", FALSE, [x |-> 0], [panic |-> FALSE, err |-> FALSE, wire |-> EncEap(Pkt(as)), attrs |-> as]) >> \o Steps(Tail(s), as)
+              << Step("aka_marshal", PSet, FALSE, [x |-> 0], [panic |-> FALSE, err |-> FALSE, wire |-> EncEap(Pkt(as)), attrs |-> as]) >> \o Steps(Tail(s), as)
          [] OTHER ->
               LET as2 == Put(as, [t |-> AT_MAC, v |-> Zeros(16)]) IN
-              << Step("aka_calcmac", "C15", FALSE, [key |-> Key, site |-> "object-history"],
+              << Step("aka_calcmac", PMac, FALSE, [key |-> Key, site |-> "object-history"],
                       [panic |-> FALSE, err |-> FALSE, mac |-> Slice(Hmac("sha256", Key, Lit(EncEap(Pkt(as2)))), 0, 16)]) >> \o Steps(Tail(s), as2)
 
-HistVector(s) == Vector("akahist", << IF FromWire THEN Step("aka_load", "C14", FALSE, [wire |-> EncEapW(WirePkt)], [panic |-> FALSE, err |-> FALSE, attrs |-> Attrs0])
-                                                      ELSE Step("aka_new", "C14", FALSE, [code |-> 2, id |-> 33, sub |-> 1], [panic |-> FALSE, attrs |-> << >>]) >>
+HistVector(s) == Vector("akahist", << IF FromWire THEN Step("aka_load", PSet, FALSE, [wire |-> EncEapW(WirePkt)], [panic |-> FALSE, err |-> FALSE, attrs |-> Attrs0])
+                                                      ELSE Step("aka_new", PSet, FALSE, [code |-> 2, id |-> 33, sub |-> 1], [panic |-> FALSE, attrs |-> << >>]) >>
                                    \o Steps(s, Attrs0)
-                                   \o << Step("aka_marshal", "C14", FALSE, [x |-> 0], [panic |-> FALSE, err |-> FALSE, wire |-> EncEap(Pkt(attrs)), attrs |-> attrs]) >>)
+                                   \o << Step("aka_marshal", PSet, FALSE, [x |-> 0], [panic |-> FALSE, err |-> FALSE, wire |-> EncEap(Pkt(attrs)), attrs |-> attrs]) >>)
 Emit == done => PrintT(ToJson(HistVector(ops)))
 Sound == done => EapEncodable(Pkt(attrs))
 =============================================================================
